@@ -17,7 +17,9 @@ fn arg_after(args: &[String], flag: &str) -> Option<String> {
 }
 
 fn quiet_panics() {
-    std::panic::set_hook(Box::new(|_| {}));
+    if std::env::var("SVCHECK_LOUD").is_err() {
+        std::panic::set_hook(Box::new(|_| {}));
+    }
 }
 
 fn main() {
@@ -261,11 +263,16 @@ fn cmd_check(args: &[String]) -> i32 {
     // 3. collect failures found by the generated search
     for (eng, r) in &merged {
         for (k, f) in r.found.iter().enumerate() {
-            let v = json!({
-                "property": prop, "level": "concrete", "engine": f.engine, "kind": f.failure.kind,
-                "detail": f.failure.detail, "step": f.failure.step, "payload": f.payload,
-                "seed": seed, "tier": tier.name(), "shrink_runs": f.shrink_runs,
-            });
+            let v = if f.level == "case" {
+                json!({"property": prop, "level": "case", "engine": f.engine, "kind": f.failure.kind,
+                    "detail": f.failure.detail, "case": f.payload, "seed": seed, "tier": tier.name()})
+            } else {
+                json!({
+                    "property": prop, "level": "concrete", "engine": f.engine, "kind": f.failure.kind,
+                    "detail": f.failure.detail, "step": f.failure.step, "payload": f.payload,
+                    "seed": seed, "tier": tier.name(), "shrink_runs": f.shrink_runs,
+                })
+            };
             let p = write_replay(&prop, &format!("{eng}-{}-{k}", f.failure.kind.replace(['.', '/', ' '], "_")), &v);
             violations.push(Violation { replay: p, detail: format!("{}: {}", f.failure.kind, f.failure.detail) });
         }
@@ -382,10 +389,20 @@ fn cmd_replay_inner(args: &[String]) -> i32 {
         return 2;
     };
     let engine = v["engine"].as_str().unwrap_or("");
-    let res = if v["level"].as_str() == Some("case") {
-        registry::run_case(prop, engine, &v["case"])
-    } else {
-        registry::replay(prop, engine, &v["payload"])
+    let res = match std::panic::catch_unwind(|| {
+        if v["level"].as_str() == Some("case") {
+            registry::run_case(prop, engine, &v["case"])
+        } else {
+            registry::replay(prop, engine, &v["payload"])
+        }
+    }) {
+        Ok(r) => r,
+        Err(p) => Ok(Some(svcore::engine::Failure {
+            prop: prop.clone(),
+            kind: "uncaught_panic".into(),
+            step: 0,
+            detail: format!("replaying panicked outside any tolerated call: {}", svcore::interp::panic_text(p)),
+        })),
     };
     match res {
         Ok(None) => 0,
